@@ -49,7 +49,7 @@ def generation_only(rep, pest):
     # deep nesting: the interpreter loads and runs these; the generated source must compile too
     deep = {}
     for op, shape in (("*", '({} ~ "b")*'), ("?", '({} ~ "b")?'), ("|", '({} | "b")'), ("+", '({} ~ "b")+'), ("{2}", '({} ~ "b"){{2}}'), ("&", '&({} ~ "b")'), ("PUSH", 'PUSH({} ~ "b")')):
-        for d in (8, 16, 20, 21, 24, 32):
+        for d in (8, 16, 20, 21, 24, 32, 48, 64, 96):
             if op in ("+", "{2}") and d > 8:
                 continue  # e+ and e{2} are their unrolled sequences: nesting them doubles the term at every level
             e = '"a"'
@@ -66,6 +66,9 @@ def generation_only(rep, pest):
                     if isinstance(e2, SyntaxError) and "too many statically nested blocks" in msg and d > 20 and op == "*":
                         # CPython allows 20 statically nested loops / with blocks in one function
                         rep.known_finding("gen-nested-loops", f"{d} nested ({op}) groups, optimized={opt}: {msg[:120]}")
+                    elif isinstance(e2, IndentationError) and "too many levels of indentation" in msg and d >= 32:
+                        # CPython's tokenizer allows 100 indentation levels; every nested operator costs the generator two or more
+                        rep.known_finding("gen-deep-indentation", f"{d} nested ({op}) groups, optimized={opt}: {msg[:120]}")
                     else:
                         rep.violation({"kind": "generate/compile", "grammar": g, "optimized": opt, "error": msg[:300]}, f"generated source for {d} nested '{op}' groups (optimized={opt}) does not generate/compile/import: {msg[:200]}")
                 deep[f"{op}x{d}"] = True
